@@ -34,6 +34,17 @@ def generate(rng, tier):
             cases.append("h.add2c %s %s" % (D(a), D(b)))
             a2, b2 = borrow_pair(rng, la, lb)
             cases.append("h.sub2 %s %s" % (D(a2), D(b2)))
+    # `x += &y` with self SHORTER than other: low part carries out into the appended tail, whose
+    # digits are all ones for 0, 1, 2, ... positions (the carry may run off the top)
+    for la in range(0, 8):
+        for extra in range(1, 5):
+            for ones in range(0, extra + 1):
+                a = [MAXD] * la
+                b = [rng.choice([1, MAXD])] * la + [MAXD] * ones + ([rand_digit(rng) | 1] * (extra - ones))
+                cases.append("u.add_assign %s %s" % (U(a), U(b)))
+                if la:
+                    a2 = rand_digits(rng, la, "ones")
+                    cases.append("u.add_assign %s %s" % (U(a2), U([1] + [0] * (la - 1) + [MAXD] * extra)))
     n = 3000 if tier == "thorough" else 500
     for _ in range(n):
         la, lb = rng.choice(lens), rng.choice(lens)
@@ -46,8 +57,10 @@ def generate(rng, tier):
             a, b = rand_digits(rng, la), rand_digits(rng, lb)
         va, vb = val(a), val(b)
         r = rng.random()
-        if r < 0.2:
+        if r < 0.1:
             cases.append("u.add %s %s" % (U(a), U(b)))
+        elif r < 0.2:
+            cases.append("u.add_assign %s %s" % (U(a), U(b)))
         elif r < 0.3:
             cases.append("u.sub %s %s" % (U(a), U(b)))            # may underflow: must panic
         elif r < 0.4:
@@ -114,7 +127,7 @@ def coq_term(case, model):
     if sum(len(x) for x in a) > 400:
         return None
     two = lambda f: "%s %s %s" % (f, coq_list(a[0]), coq_list(a[1]))
-    if op == "u.add":
+    if op in ("u.add", "u.add_assign"):
         return two("uadd addsub"), coq_result(model)
     if op == "u.sub":
         return two("usub addsub"), coq_result(model)
